@@ -1,0 +1,8 @@
+//go:build !verif
+
+package httpgrpc
+
+import "context"
+
+// verifAt is a no-op unless built with the "verif" tag (see verif_on.go).
+func verifAt(string, context.Context) {}
